@@ -31,7 +31,7 @@ def _describe(tier):
         'bounds': 'N<=%d exhaustive over partitions; boundary lengths up to %d' % (n, MAXLEN[tier]),
         'assumptions': ['one DRBG value assignment per shape and seed (data values are outside the enumerated alphabet)',
                         'supported grid: PRF output width = next key width; SSE-1 array size a power of two and N < s; Pi2Lev |DB(w)| < B*B\'*b\''],
-        'must_be_nonzero': ['ctor-styles', 'empty-list-database-refused', 'empty-list-database-accepted', 'rebuild-same-key', 'pi2lev-small', 'pi2lev-medium', 'pi2lev-large', 'N=1', 'single-list-2^k', 'dp17-L>1', 'piptr-index-2-bytes'],
+        'must_be_nonzero': ['ctor-styles', 'empty-list-database-refused', 'empty-list-database-accepted', 'rebuild-same-key', 'pi2lev-small', 'pi2lev-medium', 'pi2lev-large', 'N=1', 'single-list-2^k', 'dp17-L>1', 'piptr-index-2-bytes', 'long-list-cases', 'refused-setup-first'],
     }
 
 
